@@ -72,11 +72,18 @@ package compare
 //@   modifies p.lints, elems(p.lints)
 //@   ensures(onlystructs) !(typeis(from, *compile.StructSpec) && typeis(to, *compile.StructSpec)) ==> len(p.lints) == old(len(p.lints))
 
+//@ axiom remBase(f, t) = remSum(f, t, emptyset(Str)) == 0
+//@ axiom remStep(f, t, s, k, d) = !s[k] ==> remSum(f, t, setadd(s, k)) == remSum(f, t, s) + d
+
 //@ contract (*Pass).service
 //@   props C20
 //@   requires wfPass(p) && from != nil
+//@   let L0 = len(p.lints)
 //@   modifies p.lints, elems(p.lints)
+//@   use remBase(ref(from), ref(to))
 //@   loop 1: invariant p != nil && (ref(p.lints) == ref(old(p.lints)) || fresh(p.lints))
-//@   loop 1: invariant (forall(n, Str, has(from.Functions, n) ==> has(to.Functions, n) && to.Functions[n] != nil)) ==> len(p.lints) == old(len(p.lints))
-//@   ensures(deleted) to == nil ==> len(p.lints) == old(len(p.lints)) + 1
-//@   ensures(compatible) to != nil && forall(n, Str, has(from.Functions, n) ==> has(to.Functions, n) && to.Functions[n] != nil) ==> len(p.lints) == old(len(p.lints))
+//@   loop 1: invariant len(p.lints) == L0 + remSum(ref(from), ref(to), visitedset())
+//@   loop 1: invariant forall(n, Str, visited(n) ==> has(from.Functions, n))
+//@   loop 1: use forall(n, Str, remStep(ref(from), ref(to), visitedset(), n, ite(has(to.Functions, n) && to.Functions[n] != nil, 0, 1)))
+//@   ensures(deleted) to == nil ==> len(p.lints) == L0 + 1
+//@   ensures(removed) to != nil ==> len(p.lints) == L0 + remSum(ref(from), ref(to), keyset(from.Functions))
